@@ -19,6 +19,59 @@ CHECKS = {
         "trusted_base": ["Model/Evaluator.v hand written; Spec/SpecPoker.v written from the property text"],
         "assumptions": ["hands are 5..7 distinct cards of the configured deck"],
     },
+
+    "C02": {
+        "harness": ["walk"], "level": "proof",
+        "rule": 'state walk of the engine from a dealt hand: quick = every state reachable with the raise sizes the abstraction produces (all ten grid odds through actionize) plus 10k random full-range lines of play; thorough = every reachable betting state with EVERY integer raise size plus 200k random lines. Per state: turn, accepted set of Fold/Check and of Call/Raise/Shove/Blind for every amount -1..=stack+1, four draw probes (well-formed, one card too many, too few, card in play), the deck offered, successors of all non-raise actions and of the extreme/sampled raises, settlements under hero-wins / villain-wins / tie deals; per decision state the menus for raise counts 0..5 with their translations. distinct = distinct (history[, raise count]) inputs',
+        "exhaustive": {"quick": False, "thorough": True},
+        "trusted_base": ["Model/Game.v, Model/Showdown.v hand written (validated per run); Spec/SpecNLHE.v written from the property text; hooks Game::verif_seats/verif_dealer/verif_ticker/verif_with_holes"],
+
+        "spec_prefix": ["c02_"],
+        "technique": "Coq inductive invariant over arbitrary action histories on an executable model of the engine + per-run replay of every walked state through the extracted model, invariants evaluated on the implementation's own states",
+        "level_text": "Inductive invariant (chips conserved, pot = sum of contributions, stack + contribution = starting stack, no overflow) and the settlement theorem over the executable engine model, for every action list; the model is replayed against the implementation on every state of an exhaustive walk (field-by-field state comparison along the history, settlements under three deals), and the invariants and the zero-sum/winner clauses are evaluated directly on the implementation's states.",
+        "level_note": "Trusted: Coq kernel, hand-written model (validated per run), translator (constants, fix-site shapes), extraction + glue, harness + hooks. Cards abstracted to three fixed deals (seat 0 wins / seat 1 wins / tie).",
+        "explanation": "walk + model replay + extracted invariants",
+        "assumptions": ["two seats, equal starting stacks as configured in lib.rs"],
+    },
+    "C03": {
+        "harness": ["walk"], "level": "proof",
+        "rule": 'state walk of the engine from a dealt hand: quick = every state reachable with the raise sizes the abstraction produces (all ten grid odds through actionize) plus 10k random full-range lines of play; thorough = every reachable betting state with EVERY integer raise size plus 200k random lines. Per state: turn, accepted set of Fold/Check and of Call/Raise/Shove/Blind for every amount -1..=stack+1, four draw probes (well-formed, one card too many, too few, card in play), the deck offered, successors of all non-raise actions and of the extreme/sampled raises, settlements under hero-wins / villain-wins / tie deals; per decision state the menus for raise counts 0..5 with their translations. distinct = distinct (history[, raise count]) inputs',
+        "exhaustive": {"quick": False, "thorough": True},
+        "trusted_base": ["Model/Game.v, Model/Showdown.v hand written (validated per run); Spec/SpecNLHE.v written from the property text; hooks Game::verif_seats/verif_dealer/verif_ticker/verif_with_holes"],
+
+        "spec_prefix": ["c03_"],
+        "technique": "Coq bisimulation between an executable model of the engine and a rule-book NLHE machine + per-run comparison of the implementation with both on every walked state x every action kind x every amount",
+        "level_text": "Bisimulation theorem (same turn, same accepted set for every action kind and every integer amount, draws well- and ill-formed) between the engine model and a rule-book machine written from the property text, termination bound; per run the implementation is compared with the extracted model AND the extracted rule-book machine on every state of the walk (exhaustive over all raise sizes in the thorough tier).",
+        "level_note": "Trusted: as C02. Ring rotation rule for two seats as the anchors describe it.",
+        "explanation": "walk + model replay + extracted rule-book machine",
+        "assumptions": ["two seats", "ring blind/position rule"],
+    },
+    "C11": {
+        "harness": ["walk"], "level": "proof",
+        "rule": 'state walk of the engine from a dealt hand: quick = every state reachable with the raise sizes the abstraction produces (all ten grid odds through actionize) plus 10k random full-range lines of play; thorough = every reachable betting state with EVERY integer raise size plus 200k random lines. Per state: turn, accepted set of Fold/Check and of Call/Raise/Shove/Blind for every amount -1..=stack+1, four draw probes (well-formed, one card too many, too few, card in play), the deck offered, successors of all non-raise actions and of the extreme/sampled raises, settlements under hero-wins / villain-wins / tie deals; per decision state the menus for raise counts 0..5 with their translations. distinct = distinct (history[, raise count]) inputs',
+        "exhaustive": {"quick": False, "thorough": True},
+        "trusted_base": ["Model/Game.v, Model/Showdown.v hand written (validated per run); Spec/SpecNLHE.v written from the property text; hooks Game::verif_seats/verif_dealer/verif_ticker/verif_with_holes"],
+
+        "spec_prefix": ["c11_"],
+        "technique": "Coq theorems on the menu/translation functions of the engine model (+ binary32 bet = floor by Flocq reflection) + per-run comparison of menus and translations on every walked decision state x raise counts 0..5",
+        "level_text": "Theorems: menu non-empty/duplicate-free, every entry translates to an accepted action, monotone in the pot fraction, snapping; path packing (C15_path). Per run every decision state of the walk x raise count 0..5: choices, actionize and is_allowed compared with the extracted model and judged by the extracted rule-book machine.",
+        "level_note": "Trusted: as C02; the float computation (pot as f32 * odds) as i16 is modelled as floor(pot*num/den), proved equal to the binary32 computation on the reachable range in Flocq.",
+        "explanation": "walk menus + model replay + rule-book legality of every translated action",
+        "assumptions": ["two seats"],
+    },
+    "C14": {
+        "harness": ["walk"], "level": "proof",
+        "rule": 'state walk of the engine from a dealt hand: quick = every state reachable with the raise sizes the abstraction produces (all ten grid odds through actionize) plus 10k random full-range lines of play; thorough = every reachable betting state with EVERY integer raise size plus 200k random lines. Per state: turn, accepted set of Fold/Check and of Call/Raise/Shove/Blind for every amount -1..=stack+1, four draw probes (well-formed, one card too many, too few, card in play), the deck offered, successors of all non-raise actions and of the extreme/sampled raises, settlements under hero-wins / villain-wins / tie deals; per decision state the menus for raise counts 0..5 with their translations. distinct = distinct (history[, raise count]) inputs',
+        "exhaustive": {"quick": False, "thorough": True},
+        "trusted_base": ["Model/Game.v, Model/Showdown.v hand written (validated per run); Spec/SpecNLHE.v written from the property text; hooks Game::verif_seats/verif_dealer/verif_ticker/verif_with_holes"],
+
+        "spec_prefix": ["c14_"],
+        "technique": "Coq theorems (draw bijection on the deck bit-walk; card disjointness invariant over action histories) + per-run replay and statistical validation of the RNG link",
+        "level_text": "Theorems: the bit-walk of Deck::draw returns the (i+1)-th remaining card (a bijection from indices to remaining cards, so a uniform index gives a uniform card) and removes it; hole cards and board are pairwise disjoint in every reachable state and the deck offered is exactly the unseen cards. Per run: disjointness/deck checked on every walked state; draw frequencies per deck subset.",
+        "level_note": "Trusted: as C02; uniformity of rand::gen_range itself is trusted (statistical test at p < 1e-9 only).",
+        "explanation": "walk + deck-draw stream",
+        "assumptions": ["thread_rng / gen_range uniform"],
+    },
     "C15": {
         "harness": "c15", "level": "proof",
         "technique": "Coq theorems (round trips, injectivity, key-set NoDup by reflection) over an executable codec model + per-run model/implementation correspondence on integer codes",
